@@ -6,6 +6,7 @@ require (
 	github.com/anishathalye/porcupine v1.3.0
 	github.com/gcash/bchd v0.20.0
 	github.com/gcash/bchutil v0.0.0
+	golang.org/x/crypto v0.32.0
 	pgregory.net/rapid v1.3.0
 )
 
